@@ -72,6 +72,20 @@ def apply(graph, op, arg):
         return "obs_seq", [num(x) for x in graph.pre(vs(s), [var(i) for i in order])]
     if op == "pre":
         return "member", [num(x) for x in graph.pre(vs(arg))]
+    if op == "get_district":
+        return "obs", names(graph.get_district(var(arg[0])))
+    if op == "get_no_effect_on_outcomes":
+        s, t = arg
+        return "obs", names(graph.get_no_effect_on_outcomes(vs(s), vs(t)))
+    if op == "get_intervened_ancestors":
+        s, t = arg
+        return "obs", names(graph.get_intervened_ancestors(vs(s), vs(t)))
+    if op == "is_a_fixable":
+        from y0.graph import is_a_fixable
+        return "obs", [bool(is_a_fixable(graph, var(arg[0])))]
+    if op == "is_p_fixable":
+        from y0.graph import is_p_fixable
+        return "obs", [bool(is_p_fixable(graph, var(arg[0])))]
     if op == "get_nodes_in_directed_paths":
         s, t = arg
         return "obs", names(get_nodes_in_directed_paths(graph, vs(s), vs(t)))
